@@ -108,7 +108,7 @@ def g_dispatch(modes):
     names = sorted(L0["primitives"]) + sorted(L0["tpm2b"]) + sorted(L0["unions"]) + sorted(L0["structs"]) + all_area_keys()
     names += [f"list[{e}]" for e in W.list_types()] + ["Command", "Response", "CommandResponseStream"]
     names = [n for n in names if n != "TPM2B_ENCRYPTED_PARAM" or True]
-    jobs = []
+    jobs = [(W.unit_path, ())]
     for mode in modes:
         for ch in chunks(names, 60):
             jobs.append((W.unit_dispatch, (ch, mode)))
